@@ -3,12 +3,13 @@ CONSTANTS
   BITS = 5
 SPECIFICATION Spec
 INVARIANT ITypeOK
-INVARIANT IMeaning
+INVARIANT ILaw
 INVARIANT ICount
-INVARIANT IImpl
+INVARIANT IUndefStale
 INVARIANT IShift
 INVARIANT IVacuity
+INVARIANT ILifted
 PROPERTY PShift
-PROPERTY PSlide
+PROPERTY PTick
 PROPERTY PRenew
 CHECK_DEADLOCK FALSE
